@@ -1,7 +1,7 @@
 From Coq Require Import Extraction ExtrOcamlBasic QArith.
-From BCT Require Import Model.Clustering Model.Distance Model.EfficiencyLocal Model.Assortativity Model.IgnoreWeights Model.Walks.
+From BCT Require Import Model.Clustering Model.ClusteringInf Model.Distance Model.EfficiencyLocal Model.Assortativity Model.IgnoreWeights Model.Walks.
 Extraction Language OCaml.
 (* coqc runs with cwd = /verif/coq *)
 Extraction "../ocaml/gen/c10_model.ml" run_cc_bu run_cc_bd run_cc_wu run_cc_wd run_trans run_deg
   run_dbin run_dwei run_effbin run_effwei run_eloc_bin run_eloc_wei run_assort
-  run_density run_jdegree run_enov run_reachdist run_findwalks Qred Z.add.
+  run_density run_jdegree run_enov run_reachdist run_findwalks run_cc_o Qred Z.add.
